@@ -99,6 +99,6 @@ func init() {
 			"memory growth is not observable (Go has no allocator seam); time is observed only as scheduler steps, output volume and a generous wall-clock watchdog that must reproduce in a solitary replay before it is reported",
 			"when the call succeeds under a corrupting fault nothing is asserted about the output (the input simply was another document)",
 		},
-		Components: libComponents, QuickMS: 20000, ThoroughMS: 900000,
+		Components: libComponents, QuickMS: 20000, ThoroughMS: 900000, Cost: true,
 	}
 }
